@@ -16,7 +16,7 @@ LEVEL = "exploration"
 RULE = ("truncate: every sequence of n designs over {-2,-1,0,1}^2 (costs a fixed function of the vector; two functions, one "
         "with colliding costs) ranked by the real sorter, every k=1..n+1 (n=5, 6 over a five-vector lattice); crowding: fronts of 7-12 members on ladders and rotations; every front whose objective columns are "
         "permutations of uneven tie-free values (n<=5/6, m<=3) and every front over {0,1,2}^n columns (ties, zero range); "
-        "tournament: every population n<=3/4 over V3^2 x {F,T}, ranked or all-equal front numbers, every ordered candidate "
+        "tournament: every population n<=3/4 over V3^2 x {F,T}, ranked, or all-equal front numbers without / with crowding distances (computed over the whole set, ascending, descending), every ordered candidate "
         "pair, both coin results. Non-trivial = population with >=2 distinct designs; distinct = distinct case tuples.")
 ASSUMPTIONS = ["front numbers are those assigned by the real sorter (checked by C02)",
                "crowding exact formula only claimed on tie-free fronts, as in the statement"]
@@ -154,11 +154,20 @@ def check_tournament(costs, ranked, pair, coin):
         ind = Individual([0.0])
         ind.costs_signed = list(c)
         pop.append(ind)
-    if ranked:
+    if ranked is True:
         selector().fast_nondominated_sorting(pop)
     else:
-        for p in pop:
+        for k, p in enumerate(pop):
             p.features['front_number'] = 0
+        if ranked == "cd-whole-set":        # PSOGA: crowding distance computed over the whole swarm, front numbers all equal
+            from artap.operators import crowding_distance
+            crowding_distance(list(pop))
+        elif ranked == "cd-ascending":      # arbitrary feature values: the later (possibly dominated) member looks less crowded
+            for k, p in enumerate(pop):
+                p.features['crowding_distance'] = float(k)
+        elif ranked == "cd-descending":
+            for k, p in enumerate(pop):
+                p.features['crowding_distance'] = float(len(pop) - k)
     n = len(pop)
     i, j = pair
     idx = i * (n - 1) + (j if j < i else j - 1) if n > 1 else 0
@@ -252,7 +261,7 @@ def _shard(shard, col: Collector):
         for rest in itertools.product(alpha, repeat=n - len(fixed)):
             costs = list(fixed) + list(rest)
             pairs = [(i, j) for i in range(n) for j in range(n) if i != j] or [(0, 0)]
-            for ranked in (True, False):
+            for ranked in (True, False, "cd-whole-set", "cd-ascending", "cd-descending"):
                 for pair in pairs:
                     for coin in (0, 1):
                         col.case()
